@@ -4,5 +4,5 @@ D=$(mktemp -d /tmp/mut.XXXXXX)
 rsync -a --exclude _build --exclude .git /repo/ $D/
 (cd $D && eval "$1") || { echo "edit failed"; rm -rf $D; exit 3; }
 if cmp -s <(cd /repo && cat engine/*.cpp engine/*.h) <(cd $D && cat engine/*.cpp engine/*.h) 2>/dev/null; then echo "NO-OP MUTANT"; fi
-VERIF_EVIDENCE_DIR=$D/.ev VERIF_REPLAY_DIR=$D/.rp VERIF_REPO=$D python3 /verif/checks/run.py $2 | grep -E "refuted|ANALYSIS|obligations" | cut -c1-${3:-240}
+VERIF_EVIDENCE_DIR=$D/.ev VERIF_REPLAY_DIR=$D/.rp VERIF_REPO=$D python3 /verif/checks/run.py $2 | grep -E "refuted|ANALYSIS|obligations" | cut -c1-${3:-240} | head -${4:-8}
 rm -rf $D
